@@ -5,7 +5,7 @@ import spec
 from spec import hex_of
 
 OBLIGATION_MODULES = ["PyModeS.Properties.C11"]
-TIE_MODULES = ['PyModeS.Tie.Bds10', 'PyModeS.Tie.Bds40', 'PyModeS.Tie.Bds44', 'PyModeS.Tie.Bds45', 'PyModeS.Tie.Bds50', 'PyModeS.Tie.Bds53', 'PyModeS.Tie.Bds60', 'PyModeS.Tie.C11Gen']
+TIE_MODULES = ['PyModeS.Tie.Bds10', 'PyModeS.Tie.Bds17', 'PyModeS.Tie.Bds40', 'PyModeS.Tie.Bds44', 'PyModeS.Tie.Bds45', 'PyModeS.Tie.Bds50', 'PyModeS.Tie.Bds53', 'PyModeS.Tie.Bds60', 'PyModeS.Tie.C11Gen']
 MAIN_THEOREM = "PyModeS.C11.field_spec (one per exported decoder)"
 EXHAUSTIVE = True
 RULE = ("for every field: all raw values x status x sign with random content of all other MB bits and header/parity; "
